@@ -72,6 +72,7 @@ type CallRec struct {
 	Args    []Val
 	Results []Val
 	Pre     *State
+	Post    *State
 	Seq     int
 	Pos     token.Pos
 }
@@ -110,7 +111,7 @@ func newExec(ld *Loaded, top *ssa.Function) *Exec {
 	return &Exec{ld: ld, top: top, trustedUsed: map[string]bool{}, havocCalls: map[string]bool{},
 		funcIDs: map[*ssa.Function]int{}, funcByID: map[int]*ssa.Function{},
 		closures: map[*Term][]Val{}, closureFn: map[*Term]*ssa.Function{},
-		opts: Options{InlineMax: 6}, params: map[string]Val{}, borrowed: map[*Term]string{}}
+		opts: Options{InlineMax: 12}, params: map[string]Val{}, borrowed: map[*Term]string{}}
 }
 
 func (ex *Exec) assume(st *State, fact *Term) {
